@@ -83,6 +83,13 @@ def units(rng, tier):
         ids = gen.ids_for(rng, len(v))
         fmt = rng.choice(["list", "dict_str"])
         us += group(lambda out, v=v, fmt=fmt, ids=ids: part_unit("ckk", 5, v, rng, fmt=fmt, out=out, cmp="sums", family="ckk-5bins-small-values", ids=ids))
+    # complete KK with 3-5 bins on LAYERED values (k items per layer): two non-singleton partial partitions with tied sums are combined
+    # (repair D11: the sums-only output used to differ from the sums of the full output, e.g. [4,5,7,9,10,10,12,14,15] with 4 bins)
+    for _ in range(40 if tier == "quick" else 600):
+        k, v = gen.layered(rng)
+        ids = gen.ids_for(rng, len(v))
+        fmt = rng.choice(["list", "dict_str"])
+        us += group(lambda out, v=v, k=k, fmt=fmt, ids=ids: part_unit("ckk", k, v, rng, fmt=fmt, out=out, cmp="sums", family="ckk-layered", ids=ids))
     # covers whose control flow depends on WHICH items are present (class of the smallest item, emptiness of a class): instances made of
     # threshold values plus zero-valued and tiny items, where an adaptor that treats an output type specially shows up
     for _ in range(250 if tier == "quick" else 3000):
